@@ -396,7 +396,7 @@ func (a *sparseArrayObject) _deleteIdxProp(idx uint32, throw bool) bool {
 	if i < len(a.items) && a.items[i].idx == idx {
 		if p, ok := a.items[i].value.(*valueProperty); ok {
 			if !p.configurable {
-				a.val.runtime.typeErrorResult(throw, "Cannot delete property '%d' of %s", idx, a.val.toString())
+				a.val.runtime.typeErrorResult(throw, "Cannot delete property '%d' of an array", idx)
 				return false
 			}
 			a.propValueCount--
